@@ -3,6 +3,7 @@
 -/
 import CM.Props.C10
 import CM.Proofs.ChainRev
+import CM.Proofs.ChainInv
 namespace CM.C10
 open CM
 
@@ -47,5 +48,79 @@ example : PlainChain exLs [⟨20, "a"⟩] := by
 example : Feeds (chainCtx exLs) [⟨20, "a"⟩] 30 ⟨3, "a"⟩ ⟨8, "a"⟩ :=
   chain_feeds [⟨[⟨11, "a"⟩], [⟨12, "a"⟩], .fin []⟩] ⟨[⟨7, "a"⟩], [⟨8, "a"⟩], .fin []⟩ ⟨[⟨3, "a"⟩], [⟨4, "a"⟩], .fin []⟩ [] _ _ _ _
     (by simp [PlainChain, names, NameSet.mem]) (by simp) (by simp) rfl
+
+
+/-- **Node level, any number of layers: the decorated graph computes `inv_1(inv_2(... inv_n(t)))`.**  A chain of layers `L1 ... Ln` each with a
+one-argument inverse field of the same name, decorated around `f`: if the LAST layer's backward input computes `t` (what `f` returned under that
+name: `node_loopback_last_layer_input`), the backward output of the FIRST layer computes the inverses applied one after the other, the last layer's
+first - as ONE term, for chains of every length. -/
+theorem node_chain_inverse_term (b fb r : Bag) (h : b.loopbackWith fb = .ok r) :
+    ∃ state, connectBags b fb = .ok state ∧
+      ∀ (l0 : InvLayer) (ls : List InvLayer) (inhf : NameSet) (t : BTerm),
+        state.ctx = .chain (chainCtx ((l0 :: ls).map InvLayer.ctx)) (.bag [] [] inhf) →
+        (names state.outputs).Nodup →
+        PlainChain ((l0 :: ls).map InvLayer.ctx)
+          (cloneEdges false (state.outputs.filter fun m => inhf.mem m.name && !(names []).contains m.name) state.next).1 →
+        Wired r (l0 :: ls) → (∀ l ∈ l0 :: ls, l.n ∉ r.inputs ∧ l.n.name = l0.n.name ∧ l.o.name = l0.n.name) →
+        BDen r l0.n t → BDen r (lastOut l0 ls) (invTerm (l0 :: ls) t) := by
+  obtain ⟨state, hst, hord⟩ := node_chain_reverse_order b fb r h
+  refine ⟨state, hst, ?_⟩
+  intro l0 ls inhf t hctx hnd hp hw hnames hden
+  refine inv_chain_den ls l0 t hw (linked_of_splits _ ?_) hden
+  intro pre a b' post he s hs
+  have hb' : b' ∈ l0 :: ls := by rw [he]; simp
+  have ha : a ∈ l0 :: ls := by rw [he]; simp
+  have hmap : (l0 :: ls).map InvLayer.ctx = pre.map InvLayer.ctx ++ a.ctx :: b'.ctx :: post.map InvLayer.ctx := by
+    rw [he]; simp
+  rw [hmap] at hctx hp
+  exact (hord (pre.map InvLayer.ctx) a.ctx b'.ctx (post.map InvLayer.ctx) inhf b'.n a.o hctx hnd hp
+    (by simp [InvLayer.ctx]) (by simp [InvLayer.ctx]) (by rw [(hnames a ha).2.2, (hnames b' hb').2.1]) (hnames b' hb').1 s).2 hs
+
+/-- a third layer of the same shape -/
+def exLayerBag3 : Bag :=
+  { inputs := [⟨0, "a"⟩], outputs := [⟨1, "a"⟩],
+    edges := [{ edge := .function "N.a" [] [], ins := [⟨0, "a"⟩], out := ⟨1, "a"⟩ },
+              { edge := .function "N.inv.a" [] [], ins := [⟨2, "a"⟩], out := ⟨3, "a"⟩ }],
+    virt := .fin [], persistent := [], optional := [], ctx := .bag [⟨2, "a"⟩] [⟨3, "a"⟩] (.fin []), next := 4 }
+
+/-- non-vacuity (a test): three layers `L`, `M`, `N` decorated around `f`: the context of the connected state is a `chainCtx` of three layers under the
+function's context, and the decorated graph computes `L.inv.a(M.inv.a(N.inv.a(F(N.a(M.a(L.a(a)))))))` -/
+example :
+    (match connectBags exLayerBag exLayerBag2 with
+     | .ok lm =>
+       (match connectBags lm exLayerBag3, functionToBag "F" ["a"] ["a"] true with
+        | .ok chain, .ok fb =>
+          (match chain.ctx with
+           | .chain (.chain (.bag _ _ _) (.bag _ _ _)) (.bag _ _ _) => true
+           | _ => false) &&
+          (match chain.loopbackWith fb with
+           | .ok r =>
+               (match r.outputs.map fun o => r.term 60 o with
+                | [some (.node (.function "L.inv.a" [] []) [.node (.function "M.inv.a" [] []) [.node (.function "N.inv.a" [] []) [.node (.function "F" [] [])
+                     [.node (.function "N.a" [] []) [.node (.function "M.a" [] []) [.node (.function "L.a" [] []) [.inp "a"]]]]]]])] => true
+                | _ => false)
+           | .error _ => false)
+        | _, _ => false)
+     | .error _ => false) = true := by
+  decide +kernel
+
+/-- the term of the theorem for these three layers (last layer first) -/
+example (t : BTerm) (n o : BNode) (i : NameSet) :
+    invTerm [⟨n, o, .function "N.inv.a" [] [], i⟩, ⟨n, o, .function "M.inv.a" [] [], i⟩, ⟨n, o, .function "L.inv.a" [] [], i⟩] t =
+      .node (.function "L.inv.a" [] []) [.node (.function "M.inv.a" [] []) [.node (.function "N.inv.a" [] []) [t]]] := rfl
+
+/-- a graph of two inverse edges joined by an identity edge -/
+def exInvGraph : Bag :=
+  { inputs := [⟨0, "a"⟩], outputs := [⟨4, "a"⟩],
+    edges := [{ edge := .function "N.inv.a" [] [], ins := [⟨0, "a"⟩], out := ⟨1, "a"⟩ }, identityEdge ⟨1, "a"⟩ ⟨2, "a"⟩,
+              { edge := .function "M.inv.a" [] [], ins := [⟨2, "a"⟩], out := ⟨4, "a"⟩ }],
+    virt := .fin [], persistent := [], optional := [], ctx := .no, next := 5 }
+
+/-- the premise `Wired` is satisfiable (a test) -/
+example :
+    Wired exInvGraph [⟨⟨0, "a"⟩, ⟨1, "a"⟩, .function "N.inv.a" [] [], .fin []⟩, ⟨⟨2, "a"⟩, ⟨4, "a"⟩, .function "M.inv.a" [] [], .fin []⟩] := by
+  intro l hl
+  simp only [List.mem_cons, List.not_mem_nil, or_false] at hl
+  rcases hl with rfl | rfl <;> simp [InvLayer.edge, exInvGraph, identityEdge]
 
 end CM.C10
